@@ -136,8 +136,48 @@ func doOp(cl *Client, f *File, fh string, pr *peer, lg *callLog, kind int, arg s
 	}
 }
 
+// idStress binds the model action NextIdAtomic (ClientConn.tla): many goroutines draw request ids from one Client at
+// full speed; the ids drawn must be pairwise distinct (the window of a non-atomic draw is a few nanoseconds wide, which
+// whole operations over a transport hardly ever hit).
+func idStress(t testing.TB, tr *tracer) {
+	tr.reset(kv{"kind": "idstress"})
+	pr := newPeer(t, tr)
+	pr.quiet = true
+	cl, err := pr.client()
+	if err != nil {
+		t.Fatalf("client: %v", err)
+	}
+	const G, N = 16, 60000
+	got := make([][]uint32, G)
+	var wg sync.WaitGroup
+	start := make(chan struct{})
+	for g := 0; g < G; g++ {
+		wg.Add(1)
+		go func(g int) {
+			defer wg.Done()
+			ids := make([]uint32, N)
+			<-start
+			for i := range ids {
+				ids[i] = cl.nextID()
+			}
+			got[g] = ids
+		}(g)
+	}
+	close(start)
+	wg.Wait()
+	seen := make(map[uint32]struct{}, G*N)
+	for _, ids := range got {
+		for _, id := range ids {
+			seen[id] = struct{}{}
+		}
+	}
+	tr.emit("IdStress", kv{"goroutines": G, "draws": G * N, "distinct": len(seen)})
+	cl.Close()
+}
+
 func TestVerif_OwnReply(t *testing.T) {
 	tr := newTracer(t)
+	idStress(t, tr)
 	ids := &chanIDs{}
 	installHook(t, clientHook(tr, ids, nil))
 	nHist := 120
